@@ -401,7 +401,7 @@ pub fn run(tier: &Tier, _args: &[String]) -> i32 {
                     if reply.status == 200 {
                         let v: Value = serde_json::from_slice(&reply.body).unwrap_or_default();
                         let listed: BTreeSet<String> = v["cas"].as_array().map(|a| a.iter().filter_map(|c| c["handle"].as_str().map(|s| s.to_string())).collect()).unwrap_or_default();
-                        let all_cas = ["ca", "other", "parent", "testbed", "ta"];
+                        let all_cas = ["ca", "other", "parent", "testbed", "ta", "gkid", "skid"];
                         for c in all_cas {
                             let may = *admin || role.map(|r| r.is_allowed("ca-read", Some(c))).unwrap_or(false);
                             if listed.contains(c) && !may {
@@ -430,7 +430,7 @@ pub fn run(tier: &Tier, _args: &[String]) -> i32 {
                             }
                             for c in o.keys() {
                                 let may = *admin || role.map(|r| r.is_allowed("ca-read", Some(c))).unwrap_or(false);
-                                if !may && ["ca", "other", "parent", "testbed", "ta"].contains(&c.as_str()) {
+                                if !may && ["ca", "other", "parent", "testbed", "ta", "gkid", "skid"].contains(&c.as_str()) {
                                     results.push(json!({"case": case, "kind": "list-leak", "detail": format!("issues list shows '{c}' to a caller who may not read it")}));
                                 }
                             }
